@@ -83,3 +83,5 @@ var codecs = map[string]*codec{
 }
 
 var formatNames = []string{"json", "ubjson", "cborl"}
+
+func ensureExt(v structform.Visitor) structform.ExtVisitor { return structform.EnsureExtVisitor(v) }
